@@ -79,3 +79,115 @@ Section Lift.
     f_equal. apply ws2d_shift_list. apply P.
   Qed.
 End Lift.
+
+(** ** reversal of time, lifted through the symmetric V-curve selection *)
+Section LiftRev.
+  Variables (y w : list R).
+  Hypothesis Hl : length w = length y.
+  Hypothesis Hn : (4 <= length y)%nat.
+  Hypothesis Wn : forall i, (0 <= i < Z.of_nat (length y))%Z -> 0 <= Wk w i.
+  Hypothesis W2 : exists p q, (0 <= p < q)%Z /\ (q < Z.of_nat (length y))%Z /\ 0 < Wk w p /\ 0 < Wk w q.
+
+  Lemma ws2d_rev_list lam : 0 < lam -> ws2d OpsR (rev y) lam (rev w) = rev (ws2d OpsR y lam w).
+  Proof.
+    intros Hlam.
+    assert (length (rev y) = length y) as Ly by apply rev_length.
+    assert (length (rev w) = length (rev y)) as Lw by (rewrite !rev_length; exact Hl).
+    assert (length (ws2d OpsR (rev y) lam (rev w)) = length y) as L1 by (rewrite ws2d_length; rewrite ?Ly; lia).
+    assert (length (ws2d OpsR y lam w) = length y) as L2 by (apply ws2d_length; lia).
+    apply (nth_ext _ _ 0 0).
+    - rewrite rev_length. congruence.
+    - intros k Hk. rewrite L1 in Hk.
+      pose proof (ws2d_rev y w lam Hl Hn Wn Hlam W2 (Z.of_nat k) ltac:(lia)) as E.
+      unfold Zk in E. rewrite !vecZ_in in E by (rewrite ?L1, ?L2; lia). rewrite Nat2Z.id in E.
+      rewrite E. rewrite rev_nth by (rewrite L2; lia). rewrite L2. f_equal. lia.
+  Qed.
+
+  (** a sum does not depend on the order of its terms *)
+  Lemma fold_add_rev {A} (g : R -> A -> R) (f : A -> R) : (forall a t, g a t = a + f t) ->
+    forall (l : list A) acc, fold_left g (rev l) acc = fold_left g l acc.
+  Proof.
+    intros Hg.
+    assert (forall l acc, fold_left g l acc = acc + fold_left g l 0) as Sh.
+    { induction l as [|x r IH]; intros acc; cbn [fold_left]; [ring|]. rewrite IH, (IH (g 0 x)), !Hg. ring. }
+    induction l as [|x r IH]; intros acc; [reflexivity|]. cbn [rev]. rewrite fold_left_app. cbn [fold_left].
+    rewrite IH. rewrite (Sh r acc), (Sh r (g acc x)), !Hg. ring.
+  Qed.
+
+  Lemma combine_rev3 (a b c : list R) : length a = length b -> length b = length c ->
+    combine (rev a) (combine (rev b) (rev c)) = rev (combine a (combine b c)).
+  Proof.
+    intros H1 H2.
+    assert (forall (X Y : Type) (p : list X) (q : list Y), length p = length q -> combine (rev p) (rev q) = rev (combine p q)) as CR.
+    { clear. intros X Y p. induction p as [|x p IH]; intros [|y q] H; cbn [length] in H; try lia; [reflexivity|].
+      cbn [rev combine]. rewrite <- IH by lia.
+      assert (forall (p' : list X) (q' : list Y) x y, length p' = length q' -> combine (p' ++ [x]) (q' ++ [y]) = combine p' q' ++ [(x, y)]) as CA.
+      { clear. induction p' as [|a p' IH]; intros [|b q'] x y H; cbn [length] in H; try lia; [reflexivity|]. cbn. f_equal. apply IH. lia. }
+      apply CA. rewrite !rev_length. lia. }
+    rewrite (CR _ _ b c H2). apply CR. rewrite combine_length. lia.
+  Qed.
+
+  Lemma log_fit_rev z : length z = length y -> log_fit OpsR (rev w) (rev y) (rev z) = log_fit OpsR w y z.
+  Proof.
+    intros Hz. unfold log_fit. f_equal. rewrite combine_rev3 by congruence.
+    apply (fold_add_rev _ (fun t : R * (R * R) => let '(wi, (yi, zi)) := t in sq OpsR (fmul OpsR wi (fsub OpsR yi zi)))).
+    intros a [wi [yi zi]]. reflexivity.
+  Qed.
+
+  Lemma diffs_app_one (l : list R) a b : diffs OpsR (l ++ [a; b]) = diffs OpsR (l ++ [a]) ++ [b - a].
+  Proof.
+    induction l as [|x [|x' r] IH]; [reflexivity|reflexivity|].
+    change ((x :: x' :: r) ++ [a; b]) with (x :: ((x' :: r) ++ [a; b])).
+    change ((x :: x' :: r) ++ [a]) with (x :: ((x' :: r) ++ [a])).
+    cbn [diffs app] in *. rewrite IH. reflexivity.
+  Qed.
+
+  Lemma diffs_rev (l : list R) : diffs OpsR (rev l) = map Ropp (rev (diffs OpsR l)).
+  Proof.
+    induction l as [|a [|b r] IH]; [reflexivity|reflexivity|].
+    change (diffs OpsR (a :: b :: r)) with ((b - a) :: diffs OpsR (b :: r)).
+    cbn [rev] in *. rewrite <- app_assoc. cbn [app]. rewrite diffs_app_one. rewrite IH.
+    rewrite map_app. cbn [map]. f_equal. f_equal. ring.
+  Qed.
+
+  Lemma diffs_map_opp (l : list R) : diffs OpsR (map Ropp l) = map Ropp (diffs OpsR l).
+  Proof.
+    induction l as [|a [|b r] IH]; [reflexivity|reflexivity|].
+    change (map Ropp (a :: b :: r)) with (- a :: map Ropp (b :: r)). change (map Ropp (b :: r)) with (- b :: map Ropp r) in *.
+    cbn [diffs map]. cbn [fsub OpsR]. f_equal; [ring|exact IH].
+  Qed.
+
+  Lemma diffs2_rev (z : list R) : diffs OpsR (diffs OpsR (rev z)) = rev (diffs OpsR (diffs OpsR z)).
+  Proof.
+    rewrite (diffs_rev z), diffs_map_opp, (diffs_rev (diffs OpsR z)), map_map.
+    rewrite (map_ext (fun x => - - x) (fun x => x)) by (intros; ring). now rewrite map_id.
+  Qed.
+
+  Lemma log_pen_rev z : log_pen OpsR (rev z) = log_pen OpsR z.
+  Proof.
+    unfold log_pen. f_equal. rewrite diffs2_rev.
+    apply (fold_add_rev _ (fun d => sq OpsR d)). intros; reflexivity.
+  Qed.
+
+  Theorem optv_core_rev llas :
+    optv_core OpsR (rev y) (rev w) llas =
+    match optv_core OpsR y w llas with
+    | VFit z lopt => VFit (rev z) lopt
+    | r => r
+    end.
+  Proof.
+    unfold optv_core.
+    assert (forall l, 0 < fpow10 OpsR l) as P by (intros l; cbn; apply exp_pos).
+    assert (map (fun l => ws2d OpsR (rev y) (fpow10 OpsR l) (rev w)) llas = map (@rev R) (map (fun l => ws2d OpsR y (fpow10 OpsR l) w) llas)) as ->.
+    { rewrite map_map. apply map_ext. intros l. apply ws2d_rev_list. apply P. }
+    set (zs := map (fun l => ws2d OpsR y (fpow10 OpsR l) w) llas).
+    assert (forall z, In z zs -> length z = length y) as Lz.
+    { intros z Hz. unfold zs in Hz. apply in_map_iff in Hz as (l & <- & _). apply ws2d_length; lia. }
+    assert (map (log_fit OpsR (rev w) (rev y)) (map (@rev R) zs) = map (log_fit OpsR w y) zs) as ->.
+    { rewrite map_map. apply map_ext_in. intros z Hz. apply log_fit_rev. apply Lz. exact Hz. }
+    assert (map (log_pen OpsR) (map (@rev R) zs) = map (log_pen OpsR) zs) as ->.
+    { rewrite map_map. apply map_ext. intros z. apply log_pen_rev. }
+    unfold lopt_of. destruct (select OpsR (vcurve OpsR (llastep OpsR llas) llas (map (log_fit OpsR w y) zs) (map (log_pen OpsR) zs))) as [[v lamid]|]; [|reflexivity].
+    f_equal. apply ws2d_rev_list. apply P.
+  Qed.
+End LiftRev.
